@@ -56,10 +56,12 @@ func (c *Chan[T]) Send(v T) {
 		}
 		r.val, r.ok, r.done = v, true, true
 		Ready(r.t)
+		Progress()
 		return
 	}
 	if len(c.buf) < c.cap {
 		c.buf = append(c.buf, v)
+		Progress()
 		return
 	}
 	w := &chanWaiter[T]{t: Current(), val: v}
@@ -85,6 +87,9 @@ func (c *Chan[T]) Recv2() (T, bool) {
 		blockForever("receive on nil channel")
 	}
 	if v, ok, ready := c.tryRecv(); ready {
+		if ok {
+			Progress()
+		}
 		return v, ok
 	}
 	w := &chanWaiter[T]{t: Current()}
@@ -142,6 +147,7 @@ func (c *Chan[T]) Close() {
 		panic("close of closed channel")
 	}
 	c.closed = true
+	Progress()
 	for _, r := range c.recvq {
 		if r.sel != nil && !r.sel.claim(r.idx) {
 			continue
